@@ -262,11 +262,14 @@ LedCall(g, op, a, b) ==
     \* make_mut through a root handle to a; b = id of the fresh allocation (0: none needed).
     \* Other strong handles exist: the value is CLONED into b and the old handle is dropped.
     \* Only Weak handles besides ours: the value is MOVED into b and a is given up.
-    [] op = "MakeMut" ->
+    [] op \in {"MakeMut", "MakeMutS"} ->
          IF b = 0 THEN g
          ELSE IF HandlesIn(g, a) > 1
-         THEN [g EXCEPT !.rootS[a] = @ - 1, !.rootS[b] = 1, !.made[b] = TRUE, !.fresh = b,
-                        !.valS[b] = g.valS[a], !.valW[b] = g.valW[a], !.dtor[b] = g.dtor[a],
+         THEN \* MakeMutS: the payload's Clone creates an EMPTY value (no stored handle is re-shared)
+              [g EXCEPT !.rootS[a] = @ - 1, !.rootS[b] = 1, !.made[b] = TRUE, !.fresh = b,
+                        !.valS[b] = IF op = "MakeMut" THEN g.valS[a] ELSE Zero1,
+                        !.valW[b] = IF op = "MakeMut" THEN g.valW[a] ELSE Zero1,
+                        !.dtor[b] = g.dtor[a],
                         !.mvd[a] = @ + 1]
          ELSE [EraseRec(g, a) EXCEPT !.rootS[a] = @ - 1, !.rootS[b] = 1, !.made[b] = TRUE, !.fresh = b,
                         !.valS[b] = g.valS[a], !.valW[b] = g.valW[a], !.dtor[b] = g.dtor[a],
@@ -300,7 +303,7 @@ LedRet(g, op, a, b, d, ret) ==
                              THEN [EraseRec(g, a) EXCEPT !.rootS[a] = @ - 1, !.gone[a] = TRUE,
                                                          !.unw = @ \cup {a}, !.mvd[a] = @ + 1]
                              ELSE g
-    [] op = "MakeMut"     -> [g EXCEPT !.fresh = 0]
+    [] op \in {"MakeMut", "MakeMutS"} -> [g EXCEPT !.fresh = 0]
     [] op = "FromRaw"     -> [g EXCEPT !.raw[a] = @ - 1, !.rootS[a] = @ + 1]
     [] op = "IncStrong"   -> IF ret = "ok" THEN [g EXCEPT !.raw[a] = @ + 1] ELSE g
     [] op = "DropDetached" -> [g EXCEPT !.unw = @ \ {a}]
@@ -555,23 +558,24 @@ OpGetMut(o, top, base) ==
 
 FreshObj(b) == ~led.made[b] /\ \A p \in Obj : p < b => led.made[p]
 
-OpMakeMut(o, top, base) ==
+OpMakeMutX(op, o, top, base) ==
   /\ led.rootS[o] > 0 /\ Intact(o) /\ ob.nd[o] = 0
   /\ IF heap.strong[o] # 1
      THEN \* clone the value into a fresh allocation, then `*this = new` drops the old handle
           \E b \in Obj :
             /\ FreshObj(b)
             /\ \A t \in Obj : Handles(t) + led.valS[o][t] <= Caps.strong + 1
-            /\ IF \E t \in Obj : led.valS[o][t] > 0 /\ IncKind(t) # "ok"
-               THEN Commit(heap, led, [ObFor(top, "MakeMut", o, b) EXCEPT !.ret = "abort"],
+            /\ IF op = "MakeMut" /\ \E t \in Obj : led.valS[o][t] > 0 /\ IncKind(t) # "ok"
+               THEN Commit(heap, led, [ObFor(top, op, o, b) EXCEPT !.ret = "abort"],
                            [ctl EXCEPT !.mode = "aborted"])
-               ELSE LET h1 == [heap EXCEPT !.mem[b] = "alloc", !.strong[b] = 1, !.weak[b] = 1,
+               ELSE LET sh == op = "MakeMutS"
+                        h1 == [heap EXCEPT !.mem[b] = "alloc", !.strong[b] = 1, !.weak[b] = 1,
                                            !.vinit[b] = TRUE, !.linit[b] = TRUE,
-                                           !.strong = [t \in Obj |-> IF t = b THEN 1 ELSE @[t] + led.valS[o][t]],
-                                           !.weak   = [t \in Obj |-> IF t = b THEN 1 ELSE @[t] + led.valW[o][t]]]
-                        g2 == LR("MakeMut", o, b, NoScript, "cloned")
+                                           !.strong = [t \in Obj |-> IF t = b THEN 1 ELSE @[t] + (IF sh THEN 0 ELSE led.valS[o][t])],
+                                           !.weak   = [t \in Obj |-> IF t = b THEN 1 ELSE @[t] + (IF sh THEN 0 ELSE led.valW[o][t])]]
+                        g2 == LR(op, o, b, NoScript, "cloned")
                     IN Commit(h1, g2,
-                              DropObs([ObFor(top, "MakeMut", o, b) EXCEPT !.ret = "cloned", !.tret = IF top THEN "cloned" ELSE @], g2, o),
+                              DropObs([ObFor(top, op, o, b) EXCEPT !.ret = "cloned", !.tret = IF top THEN "cloned" ELSE @], g2, o),
                               [ctl EXCEPT !.stack = <<Frame("drop", o)>> \o base])
      ELSE IF heap.weak[o] # 1
      THEN \* only Weak handles besides ours: steal the value
@@ -581,9 +585,10 @@ OpMakeMut(o, top, base) ==
                    h1 == [h0 EXCEPT !.mem[b] = "alloc", !.strong[b] = 1, !.weak[b] = 1,
                                     !.vinit[b] = TRUE, !.linit[b] = TRUE,
                                     !.vinit[o] = FALSE, !.strong[o] = 0, !.weak[o] = @ - 1]
-               IN Commit(h1, LR("MakeMut", o, b, NoScript, "moved"), [ObFor(top, "MakeMut", o, b) EXCEPT !.ret = "moved"],
+               IN Commit(h1, LR(op, o, b, NoScript, "moved"), [ObFor(top, op, o, b) EXCEPT !.ret = "moved"],
                          [ctl EXCEPT !.stack = base])
-     ELSE Done(heap, "MakeMut", o, 0, NoScript, "unique", top, base)
+     ELSE Done(heap, op, o, 0, NoScript, "unique", top, base)
+OpMakeMut(o, top, base) == OpMakeMutX("MakeMut", o, top, base)
 
 OpIntoRaw(o, top, base) ==
   /\ led.rootS[o] > 0
@@ -636,6 +641,7 @@ CallOp(op, a, b, d, top, base) ==
     [] op = "TryUnwrap"   -> OpTryUnwrap(a, top, base)
     [] op = "GetMut"      -> OpGetMut(a, top, base)
     [] op = "MakeMut"     -> OpMakeMut(a, top, base)
+    [] op = "MakeMutS"    -> OpMakeMutX("MakeMutS", a, top, base)
     [] op = "IntoRaw"     -> OpIntoRaw(a, top, base)
     [] op = "FromRaw"     -> OpFromRaw(a, top, base)
     [] op = "IncStrong"   -> OpIncStrong(a, top, base)
@@ -924,6 +930,7 @@ Call ==
      \/ En("TryUnwrap")   /\ \E o \in Obj : OpTryUnwrap(o, TRUE, <<>>)
      \/ En("GetMut")      /\ \E o \in Obj : OpGetMut(o, TRUE, <<>>)
      \/ En("MakeMut")     /\ \E o \in Obj : OpMakeMut(o, TRUE, <<>>)
+     \/ En("MakeMutS")    /\ \E o \in Obj : OpMakeMutX("MakeMutS", o, TRUE, <<>>)
      \/ En("IntoRaw")     /\ \E o \in Obj : OpIntoRaw(o, TRUE, <<>>)
      \/ En("FromRaw")     /\ \E o \in Obj : OpFromRaw(o, TRUE, <<>>)
      \/ En("IncStrong")   /\ \E o \in Obj : OpIncStrong(o, TRUE, <<>>)
